@@ -20,8 +20,22 @@
 //   itself has set, cross-checked with nbNets/nbPinsNet/pinCell); HP line and hpwl are empty for kind x.
 //   "step ~ = n" : the n repeated queries of that step returned exactly the preceding records again (idempotence)
 //   "step ~ THROW msg" : a setter or query threw
+//
+// Placement-stage sequences (C01 / C02: legalize and placeDetailed called on an object with a history):
+//   circseq gen p SEED COUNT
+// case line:
+//   "SP nr (minX maxX minY maxY orient)* nc (x y w h orient pol fixed obstruction)* nn (np (cell xo yo)*)* ns (op a b c d e f q)*"
+//   (no extra obstacles; cells carry their row polarity 0..4 = ANY SAME OPPOSITE NW SE); the ops above plus
+//       16 legalize(params): a = effort, b = 1: custom ordering parameters orderingWidth = c/10, orderingY = d/10, orderingHeight = e/10
+//       17 placeDetailed(params): a = effort, b > 0: reorderingMaxNbCells = b, c > 0: reorderingNbRows = c
+//   A step 16/17 is run on the object with its history AND on a circuit built from scratch through the public setters from the
+//   public state (getters; nets as the harness set them) of the object right before the call. Record (7 fields):
+//   "step ~ L ~ op a b c d e ~ <rows> <cells> (LG circuit tokens of the state before the call) ~ <nets> ~ outcome of the object ~ outcome
+//    of the fresh circuit";  outcome = "OK x y orient ..." or "NOROW ; x y orient ..." / "NOTALL ; ..." / "THROW msg ; ..." (placement after).
+//   The other steps are queried as in SQ cases (computeRows / hpwl / report populate whatever the object keeps between calls).
 #include "vh.hpp"
 #include "coloquinte.hpp"
+#include "cgen.hpp"
 using namespace coloquinte;
 
 struct Net { std::vector<int> c, xo, yo; };
@@ -128,16 +142,68 @@ static void queries(const Obj &o, int step, const char *kind, long long q, const
   out.push_back(st + "= " + std::to_string(same));
 }
 
+// ---- placement stages on an object with a history (SP cases) ----
+static std::string lgState(const Circuit &c) {   // "<rows> <cells>" as in the LG / LC case lines, from the public getters
+  std::ostringstream s; s << c.rows().size();
+  for (auto &r : c.rows()) s << " " << r.minX << " " << r.maxX << " " << r.minY << " " << r.maxY << " " << (int)r.orientation;
+  s << " " << c.nbCells();
+  for (int i = 0; i < c.nbCells(); ++i)
+    s << " " << c.cellX()[i] << " " << c.cellY()[i] << " " << c.cellWidth()[i] << " " << c.cellHeight()[i] << " " << (int)c.cellOrientation()[i]
+      << " " << polInt(c.cellRowPolarity()[i]) << " " << (int)c.cellIsFixed()[i] << " " << (int)c.cellIsObstruction()[i];
+  return s.str();
+}
+static std::string netsText(const Obj &o) {
+  std::ostringstream s; s << o.nets.size();
+  for (auto &n : o.nets) { s << " " << n.c.size(); for (size_t j = 0; j < n.c.size(); ++j) s << " " << n.c[j] << " " << n.xo[j] << " " << n.yo[j]; }
+  return s.str();
+}
+// a circuit built from scratch, through the public setters only, holding the public state of o
+static Circuit freshCopy(const Obj &o) {
+  const Circuit &c = o.c; Circuit f(c.nbCells());
+  f.setCellWidth(c.cellWidth()); f.setCellHeight(c.cellHeight()); f.setCellIsFixed(c.cellIsFixed()); f.setCellIsObstruction(c.cellIsObstruction());
+  f.setCellRowPolarity(c.cellRowPolarity()); f.setCellOrientation(c.cellOrientation()); f.setCellX(c.cellX()); f.setCellY(c.cellY());
+  f.setRows(c.rows());
+  for (auto &n : o.nets) f.addNet(n.c, n.xo, n.yo);
+  return f;
+}
+static std::string stage(Circuit &c, const Op &p) {
+  std::string res;
+  try {
+    ColoquinteParameters prm((int)p.a[0]);
+    if (p.op == 16) {
+      if (p.a[1]) { prm.legalization.orderingWidth = p.a[2] / 10.0; prm.legalization.orderingY = p.a[3] / 10.0; prm.legalization.orderingHeight = p.a[4] / 10.0; }
+      c.legalize(prm);
+    } else {
+      if (p.a[1] > 0) prm.detailed.reorderingMaxNbCells = (int)p.a[1];
+      if (p.a[2] > 0) prm.detailed.reorderingNbRows = (int)p.a[2];
+      c.placeDetailed(prm);
+    }
+    res = "OK";
+  } catch (std::exception &e) { std::string m = e.what(); res = (m == "No row present" ? "NOROW" : m == "Not all cells have been placed" ? "NOTALL" : "THROW " + m) + " ;"; }
+  return res + showPlacement(c);
+}
+static void placementStep(Obj &o, int step, const Op &p, std::vector<std::string> &out) {
+  std::ostringstream h; h << step << " ~ L ~ " << p.op; for (int k = 0; k < 5; ++k) h << " " << p.a[k];
+  h << " ~ " << lgState(o.c) << " ~ " << netsText(o) << " ~ ";
+  std::string fresh;
+  try { Circuit f = freshCopy(o); fresh = stage(f, p); } catch (std::exception &e) { fresh = std::string("THROW-BUILD ") + e.what(); }
+  std::string mine = stage(o.c, p);
+  out.push_back(h.str() + mine + " ~ " + fresh);
+}
+
 static void runCase(const std::string &line, std::vector<std::string> &out) {
+  const bool sp = line[1] == 'P';
   auto v = vh_ints(line.substr(3)); size_t p = 0;
   auto nx = [&]() -> long long { return p < v.size() ? v[p++] : 0; };
   int nr = nx(); std::vector<Row> rows;
   for (int i = 0; i < nr; ++i) { int a = nx(), b = nx(), c = nx(), d = nx(); auto o = (CellOrientation)nx(); rows.emplace_back(a, b, c, d, o); }
-  int ne = nx(); std::vector<Rectangle> extra;
+  int ne = sp ? 0 : nx(); std::vector<Rectangle> extra;
   for (int i = 0; i < ne; ++i) { int a = nx(), b = nx(), c = nx(), d = nx(); extra.emplace_back(a, b, c, d); }
   int nc = nx(); Obj o(nc);
   std::vector<int> x(nc), y(nc), w(nc), h(nc); std::vector<CellOrientation> ori(nc); std::vector<bool> fx(nc), ob(nc);
-  for (int i = 0; i < nc; ++i) { x[i] = nx(); y[i] = nx(); w[i] = nx(); h[i] = nx(); ori[i] = (CellOrientation)nx(); fx[i] = nx(); ob[i] = nx(); }
+  std::vector<CellRowPolarity> pol(nc, CellRowPolarity::ANY);
+  for (int i = 0; i < nc; ++i) { x[i] = nx(); y[i] = nx(); w[i] = nx(); h[i] = nx(); ori[i] = (CellOrientation)nx(); if (sp) pol[i] = kPol[nx() % 5]; fx[i] = nx(); ob[i] = nx(); }
+  if (sp) o.c.setCellRowPolarity(pol);
   o.c.setCellX(x); o.c.setCellY(y); o.c.setCellWidth(w); o.c.setCellHeight(h); o.c.setCellOrientation(ori);
   o.c.setCellIsFixed(fx); o.c.setCellIsObstruction(ob); o.c.setRows(rows);
   int nn = nx();
@@ -147,6 +213,7 @@ static void runCase(const std::string &line, std::vector<std::string> &out) {
   for (int s = 1; s <= ns; ++s) {
     Op op; op.op = nx(); for (int k = 0; k < 6; ++k) op.a[k] = nx(); op.q = nx();
     try {
+      if (op.op == 16 || op.op == 17) { placementStep(o, s, op, out); continue; }
       if (op.q & 16) { Obj cp = o; apply(cp, op); queries(cp, s, "m", op.q, extra, out); }
       apply(o, op);
       if (op.q & 1) continue;
@@ -198,8 +265,61 @@ static void gen(unsigned long long seed, long long count) {
   }
 }
 
+// SP cases: a circuit of the legalization domain (harness/cgen.hpp: split rows, multi-row cells, polarities, fixed cells of any size) and
+// 3-9 steps; legalize is called at least twice with public edits in between (aimed at what a Circuit keeps between calls: moved fixed
+// obstructions, changed flags, changed rows), sometimes placeDetailed
+static void genp(unsigned long long seed, long long count) {
+  SplitMix g(seed ^ 0x9c01u);
+  for (long long it = 0; it < count; ++it) {
+    GenOpts o; o.maxCells = 8; o.utilLo = 20; o.utilHi = 90;
+    if (g.coin(25)) o.scale = 1LL << g.uni(4, 16);
+    if (g.coin(30)) o.polarity = false;
+    if (g.coin(30)) o.turned = false;
+    TCircuit t = genCircuit(g, o); long long sc = o.scale;
+    if (g.coin(60)) {   // one more fixed obstruction sitting inside the rows (row-high or two rows high, 1-4 wide): the thing the steps move around
+      auto &r = t.rows[g.uni(0, t.rows.size() - 1)]; long long rh = r[3] - r[2], wd = std::max(1LL, (r[1] - r[0]) / sc);
+      t.cells.push_back({r[0] + g.uni(0, wd - 1) * sc, r[2], g.uni(1, 4) * sc, rh * g.uni(1, 2), 0, 0, 1, 1});
+    }
+    int nc = (int)t.cells.size(), nr = (int)t.rows.size();
+    long long bx0 = t.rows[0][0], bx1 = t.rows[0][1], by0 = t.rows[0][2], by1 = t.rows[0][3], rh = t.rows[0][3] - t.rows[0][2];
+    for (auto &r : t.rows) { bx0 = std::min(bx0, r[0]); bx1 = std::max(bx1, r[1]); by0 = std::min(by0, r[2]); by1 = std::max(by1, r[3]); }
+    std::vector<int> fixedCells; for (int i = 0; i < nc; ++i) if (t.cells[i][6]) fixedCells.push_back(i);
+    auto X = [&]() { return bx0 + g.uni(-2, (bx1 - bx0) / sc + 1) * sc; };
+    auto Y = [&]() { return by0 + g.uni(-1, (by1 - by0) / rh) * rh + (g.coin(20) ? g.uni(0, rh - 1) : 0); };
+    auto cellPick = [&]() -> long long { if (!fixedCells.empty() && g.coin(60)) return fixedCells[g.uni(0, fixedCells.size() - 1)]; return g.uni(0, nc - 1); };
+    printf("SP %s", showRowsCells(t).c_str());
+    int nn = (int)g.uni(0, 4); printf(" %d", nn);
+    for (int n = 0; n < nn; ++n) { int np = (int)g.uni(2, 4); printf(" %d", np); for (int j = 0; j < np; ++j) { int cc = (int)g.uni(0, nc - 1); printf(" %d %lld %lld", cc, g.uni(0, std::max(1LL, t.cells[cc][2] / sc)) * sc, g.uni(0, std::max(1LL, t.cells[cc][3] / sc)) * sc); } }
+    int ns = (int)g.uni(3, 9); printf(" %d", ns);
+    for (int s = 0; s < ns; ++s) {
+      static const int ops[] = {16, 16, 16, 16, 8, 8, 8, 8, 1, 1, 2, 2, 6, 6, 7, 7, 9, 9, 10, 3, 4, 5, 12, 14, 15, 17, 17};
+      int op = ops[g.uni(0, sizeof ops / sizeof *ops - 1)]; long long a[6] = {0, 0, 0, 0, 0, 0};
+      if (s == ns - 1 || (s == 0 && g.coin(70))) op = 16;
+      switch (op) {
+      case 1: a[0] = cellPick(); a[1] = X(); break;
+      case 2: a[0] = cellPick(); a[1] = Y(); break;
+      case 3: a[0] = g.uni(0, nc - 1); a[1] = g.uni(1, 6) * sc; break;
+      case 4: a[0] = g.uni(0, nc - 1); a[1] = g.uni(1, 2) * rh; break;
+      case 5: a[0] = g.uni(0, nc - 1); { int os[4] = {0, 1, 4, 5}; a[1] = g.coin(80) ? os[g.uni(0, 3)] : g.uni(0, 7); } break;
+      case 6: case 7: a[0] = g.coin(10) ? -1 : cellPick(); a[1] = g.uni(0, 2); break;
+      case 8: a[0] = cellPick(); a[1] = X(); a[2] = Y(); a[3] = t.cells[a[0]][4]; if (g.coin(15)) { int os[4] = {0, 1, 4, 5}; a[3] = os[g.uni(0, 3)]; } break;
+      case 9: a[0] = g.uni(0, nr - 1); a[1] = t.rows[a[0]][0] + g.uni(-2, 2) * sc; a[2] = std::max(a[1], t.rows[a[0]][1] + g.uni(-2, 2) * sc); a[3] = t.rows[a[0]][4]; if (g.coin(25)) { int os[4] = {0, 1, 4, 5}; a[3] = os[g.uni(0, 3)]; } break;
+      case 10: a[0] = g.coin(60); a[1] = bx0 + g.uni(0, 2) * sc; a[2] = bx1 - g.uni(0, 2) * sc; a[3] = g.coin(50) ? 0 : 5; break;
+      case 12: a[0] = g.uni(0, nc - 1); a[1] = g.uni(0, 2) * sc; a[2] = g.uni(0, 2) * sc; a[3] = g.uni(0, nc - 1); a[4] = g.uni(0, 2) * sc; a[5] = g.uni(0, 2) * sc; break;
+      case 16: a[0] = g.uni(1, 9); a[1] = g.coin(40); if (a[1]) { a[2] = g.uni(0, 10); a[3] = g.uni(-2, 2); a[4] = g.uni(-20, 20); } break;
+      case 17: a[0] = g.uni(1, 3); a[1] = g.coin(50) ? g.uni(2, 4) : 0; a[2] = g.coin(30) ? g.uni(1, 3) : 0; break;
+      default: break;
+      }
+      long long q = (g.coin(30) ? 1 : 0) | (g.coin(25) ? 2 : 0);
+      printf(" %d %lld %lld %lld %lld %lld %lld %lld", op, a[0], a[1], a[2], a[3], a[4], a[5], q);
+    }
+    printf("\n");
+  }
+}
+
 int main(int argc, char **argv) {
   std::string mode = argc > 1 ? argv[1] : "run";
+  if (mode == "gen" && argc > 4 && std::string(argv[2]) == "p") { genp(strtoull(argv[3], nullptr, 10), atoll(argv[4])); return 0; }
   if (mode == "gen") { gen(strtoull(argv[2], nullptr, 10), atoll(argv[3])); return 0; }
   vh_install(); vh_silence();
   std::string line;
